@@ -139,6 +139,8 @@ def run(rep):
                     why = 'children %s / %s differ from the insertion order %s' % (o['uno'], o['ord'], eids)
                 elif o.get('linked') is False:
                     why = 'a child does not point at the element as its parent (or is not one level below it)'
+                elif o.get('released') is False:
+                    why = 'a child that has left the element still points at it as its parent (its level and indentation follow the former parent)'
                 elif 'txt' in o and o['txt'] != o['names']:
                     why = 'serialised children %s differ from insertion order %s' % (o['txt'], o['names'])
                 elif o['pr']:
